@@ -393,6 +393,11 @@ def kf_c07_1(container):
 def replay(case):
     if "fresh" in case:
         return fresh_check(*case["fresh"])
+    if "ext" in case:
+        import fickling  # noqa: F401
+
+        base_allowlist()
+        return ext_check(*case["ext"])
     import fickling  # noqa: F401
 
     base_allowlist()
@@ -451,12 +456,71 @@ def fresh_check(prelude, entry):
     return None
 
 
+def ext_check(entry, nested):
+    """a non-allow-listed global reached through the extension registry (copyreg.add_extension +
+    EXT1), after the stock unpickler resolved that code once: refused like the name, not called"""
+    import copyreg
+    import io
+    import pickle
+
+    import _pickle
+
+    import fickling.hook as hook
+    import verif_sink
+    from fickling.exception import UnsafeFileError
+
+    from vlib.sandbox import reset_pickle_bindings
+
+    reset_pickle_bindings()
+    copyreg.add_extension("verif_sink", "sink", 0xD1)
+    try:
+        pickle.loads(b"\x82\xd1.")  # the application itself used the code before
+        hook.activate_safe_ml_environment(also_allow=["pickle.loads"] if nested else None)
+        inner = b"\x82\xd1(S'through the extension registry'\ntR."
+        data = inner
+        if nested:
+            data = b"cpickle\nloads\n(B" + len(inner).to_bytes(4, "little") + inner + b"tR."
+        verif_sink.reset()
+        try:
+            {"pickle.load": lambda: pickle.load(io.BytesIO(data)), "pickle.loads": lambda: pickle.loads(data),
+             "_pickle.load": lambda: _pickle.load(io.BytesIO(data)), "_pickle.loads": lambda: _pickle.loads(data)}[entry]()
+            outcome = "returned"
+        except UnsafeFileError:
+            outcome = "refused"
+        except Exception as e:  # noqa: BLE001
+            outcome = "raised " + type(e).__name__
+        ran = list(verif_sink.LOG)
+        verif_sink.reset()
+    finally:
+        reset_pickle_bindings()
+        copyreg.remove_extension("verif_sink", "sink", 0xD1)
+        copyreg._extension_cache.clear()
+    if ran or outcome != "refused":
+        return Failure({"ext": [entry, nested]},
+                       f"{'nested ' if nested else ''}pickle naming verif_sink.sink through an extension code (resolved once by the "
+                       f"stock unpickler before) via {entry} under the safe ML environment: {outcome}, called: {ran}")
+    return None
+
+
 def shards(tier):
     per = 40 if tier == "quick" else 8000
-    return [{"kind": "nest", "n": per, "idx": i} for i in range(16)] + [{"kind": "fresh", "prelude": p} for p in FRESH_PRELUDES]
+    return [{"kind": "nest", "n": per, "idx": i} for i in range(16)] + [{"kind": "fresh", "prelude": p} for p in FRESH_PRELUDES] + [{"kind": "ext"}]
 
 
 def run_shard(spec, seed):
+    if spec["kind"] == "ext":
+        import fickling  # noqa: F401
+
+        base_allowlist()
+        res = ShardResult()
+        for entry in ENTRY:
+            for nested in (False, True):
+                f = ext_check(entry, nested)
+                res.note((entry, nested), True, klass=["extension-registry", "entry:" + entry], sample={"ext": [entry, nested]})
+                if f is not None:
+                    res.failures.append(f)
+                    return res
+        return res
     if spec["kind"] == "fresh":
         res = ShardResult()
         for entry in ENTRY:
